@@ -248,6 +248,7 @@ def run_shard(spec, rec):
     while n < spec["n"]:
         r = R.random()
         cfg = G.Cfg(filters=True, regex_functions=True, max_depth=2, max_segments=3)
+        cfg.regex_pool = cfg.regex_pool + G.HOSTILE_PATTERNS   # valid and invalid patterns in any order
         gen = G.QGen(R, cfg)
         if r < 0.2:
             q, doc = singular_case(R)
@@ -303,6 +304,7 @@ def run_shard(spec, rec):
                 # afresh must agree on the new content
                 try:
                     c_old = env.compile(t)
+                    c_old.find(doc)
                     list(c_old.finditer(doc))
                     if isinstance(doc, list):
                         doc.append(D.deep_copy(R.choice([1, "a", {"a": 1, "b": [1]}, [1, 2], None])))
